@@ -10,9 +10,8 @@ from concurrent.futures import ThreadPoolExecutor
 import argparse, tempfile
 env=dict(os.environ, GOFLAGS='-mod=mod', GOPROXY='off', GOSUMDB='off', GOTOOLCHAIN='local', GOWORK='off')
 VERIF=os.path.dirname(os.path.dirname(os.path.abspath(__file__)))
-ap=argparse.ArgumentParser(); ap.add_argument('-j',type=int,default=14); ap.add_argument('--stage',default='all'); ap.add_argument('--out',default=os.path.join(VERIF,'mutation','results.json')); ap.add_argument('--limit',type=int,default=0)
+ap=argparse.ArgumentParser(); ap.add_argument('-j',type=int,default=14); ap.add_argument('--stage',default='all'); ap.add_argument('--out',default=os.path.join(VERIF,'mutation','results.json')); ap.add_argument('--limit',type=int,default=0); ap.add_argument('--ops',default='A',help='A: the operators of the first campaigns; B: second operator set (int-1, +/-, </> swap, rune and string literals, continue/break, base<->url, slice bounds)')
 args=ap.parse_args()
-W='/tmp/wu-mut'
 files=[f for d in ('url','canonicalizer','errors') for f in sorted(glob.glob(f'/repo/{d}/*.go')) if not f.endswith('_test.go')]
 muts=[]
 def strip_strings(line):
@@ -35,6 +34,9 @@ def strip_strings(line):
         i+=1
     return ''.join(res)
 OPS=[('==','!='),('!=','=='),('<=','<'),('>=','>'),('&&','||'),('||','&&')]
+SETB=args.ops=='B'
+if SETB: OPS=[]
+W='/tmp/wu-mut'+args.ops
 for f in files:
     lines=open(f).read().split('\n')
     inimport=False; incomment=False
@@ -56,6 +58,37 @@ for f in files:
             for mth in re.finditer(re.escape(a),masked):
                 i=mth.start()
                 add(line[:i]+b+line[i+len(a):], f'{a}->{b}')
+        if SETB:
+            for mth in re.finditer(r'(?<![<\-=!>:+])<(?![=<\-])',masked):
+                i=mth.start(); add(line[:i]+'>'+line[i+1:],'<->>')
+            for mth in re.finditer(r'(?<![>\-=!<])>(?![=>])',masked):
+                i=mth.start(); add(line[:i]+'<'+line[i+1:],'>-><')
+            for mth in re.finditer(r'(?<![\w.])(\d+)(?![\w.])',masked):
+                v=int(mth.group()); i,j=mth.span()
+                if 0<v<=65535: add(line[:i]+str(v-1)+line[j:],'int-1')
+            for mth in re.finditer(r'\b0x[0-9a-fA-F]+\b',masked):
+                v=int(mth.group(),16); i,j=mth.span()
+                if v>0: add(line[:i]+hex(v-1)+line[j:],'hex-1')
+            for mth in re.finditer(r' \+ ',masked):
+                i=mth.start(); add(line[:i]+' - '+line[i+3:],'+->-')
+            for mth in re.finditer(r' - ',masked):
+                i=mth.start(); add(line[:i]+' + '+line[i+3:],'-->+')
+            for mth in re.finditer(r"'(_|[^'_])'",masked):
+                i,j=mth.span(); lit=line[i:j]
+                if len(lit)==3 and 0x20<ord(lit[1])<0x7e and lit[1] not in "\\'": add(line[:i]+"'"+chr(ord(lit[1])+1).replace("'",'(').replace('\\',']')+"'"+line[j:],'rune+1')
+            for mth in re.finditer(r'"_+"',masked):
+                i,j=mth.span(); add(line[:j-1]+'x'+line[j-1:],'string+x')
+            for mth in re.finditer(r'\bcontinue\b',masked):
+                i,j=mth.span(); add(line[:i]+'break'+line[j:],'continue->break')
+            for mth in re.finditer(r'\bbase\.',masked):
+                i,j=mth.span(); add(line[:i]+'url.'+line[j:],'base->url')
+            for mth in re.finditer(r'\[(\w+):\]',masked):
+                i,j=mth.span(); add(line[:i]+'['+mth.group(1)+'+1:]'+line[j:],'lo+1')
+            for mth in re.finditer(r'\[:(\w+)\]',masked):
+                i,j=mth.span(); add(line[:i]+'[:'+mth.group(1)+'-1]'+line[j:],'hi-1')
+            for mth in re.finditer(r'\+\+',masked):
+                pass
+            continue
         for mth in re.finditer(r'(?<![<\-=!>:+])<(?![=<\-])',masked):
             i=mth.start(); add(line[:i]+'<='+line[i+1:],'<-><=')
         for mth in re.finditer(r'(?<![>\-=!<])>(?![=>])',masked):
